@@ -43,6 +43,7 @@ type Profile struct {
 	AllRules          bool // draw validators from every rule either converter understands (C11)
 	BareControllers   bool // controllers without @Route / @Tag / any doc comment at all
 	RuntimeValidators bool // only validators whose run-time semantics the router labs model
+	HostileNames      bool // parameter names that stress identifier concatenation in the templates (C09)
 }
 
 var verbs = []string{"GET", "POST", "PUT", "DELETE", "PATCH"}
@@ -444,7 +445,7 @@ func isIntPrim(n string) bool   { return strings.HasPrefix(n, "int") || strings.
 func isFloatPrim(n string) bool { return strings.HasPrefix(n, "float") }
 
 var allRulePool = []string{"email", "uuid", "ip", "ipv4", "ipv6", "hostname", "date", "datetime", "gt=3", "gte=-2", "lt=99", "lte=100.5", "min=1", "max=64", "len=8",
-	"pattern=^[a-z]+$", "minItems=1", "maxItems=9", "uniqueItems=true", "enum=a|b|c", "oneof=x y z", "oneof=1 2 3", "required", "gt=0.5", "min=0", "max=0"}
+	"pattern=^[a-z]+$", "minItems=1", "maxItems=9", "uniqueItems=true", "enum=a|b|c", "oneof=x y z", "oneof=1 2 3", "required", "gt=0.5", "min=0", "max=0", "lte=0", "gte=0", "lt=0", "gt=0", "len=0", "maxItems=0", "minItems=0"}
 
 // richValidator draws 1-3 well-formed rules from the full catalogue, applicable to the type or not.
 func (g *gen) richValidator() string {
@@ -644,6 +645,9 @@ func hasBodyOrForm(ps []Param) bool {
 
 var paramNames = []string{"id", "name", "q", "limit", "offset", "sort", "filter", "token", "lang", "page", "ref", "mode", "flag", "ver"}
 
+// names that collide with template locals, Go predeclared identifiers or each other after ToLowerCamel
+var hostileParamNames = []string{"user_id", "userId", "value", "opError", "controller", "statusCode", "conversionErr", "ginCtx", "req", "w", "r", "err", "len", "string", "x1", "a_b_c", "ID", "Id", "fiberCtx", "echoCtx", "authErr", "ctx2", "validatorErr", "fieldName", "engine", "json", "http", "fmt", "strconv"}
+
 func (g *gen) simpleParamType(in string) T {
 	prof := g.prof
 	enums, aliases := g.enumsFor(g.curPkg), g.aliasesFor(g.curPkg)
@@ -800,6 +804,9 @@ func (g *gen) genMethod(c *Controller, idx int) Method {
 	newName := func() string {
 		for tries := 0; tries < 50; tries++ {
 			n := g.pick(paramNames)
+			if prof.HostileNames && g.chance(0.5) {
+				n = g.pick(hostileParamNames)
+			}
 			if !usedNames[n] {
 				usedNames[n] = true
 				return n
